@@ -82,7 +82,7 @@ structure StepA (s s' : St) (i : Nat) (p p' : Proc) : Prop where
   idxLen : s.index.length ≤ s'.index.length
   pathsLen : s.paths.length ≤ s'.paths.length
   fileOther : ∀ w, p.ident ≠ some w → fileOf s' w = fileOf s w
-  results : ∃ l, p'.results = p.results ++ l ∧ (Res.ok ∈ l → p.pc = .sRel)
+  results : ∃ l, p'.results = p.results ++ l ∧ (Res.ok ∈ l → p.pc = .sRel ∨ (p.pc = .xClose ∧ l = [.ok]))
 
 set_option hygiene false in
 macro "stepF " name:ident pc:term " => " tac:tacticSeq : command =>
@@ -164,7 +164,7 @@ stepF StepA.s_iAcq .iAcq => acqF
 
 /-- the shared part of a releasing step -/
 theorem StepA.of_release {s : St} {i : Nat} {p p' : Proc} (hlk : s.lock = some i) (l : List Res)
-    (hres : p'.results = p.results ++ l) (hok : Res.ok ∈ l → p.pc = .sRel) :
+    (hres : p'.results = p.results ++ l) (hok : Res.ok ∈ l → p.pc = .sRel ∨ (p.pc = .xClose ∧ l = [.ok])) :
     StepA s (setProc (release s i p).1 i p') i p p' := by
   refine ⟨by simp, ?_, ?_, ?_, ?_, ?_, ?_, ⟨l, hres, hok⟩⟩
   · intro j hj; simp only [setProc_lock, release_fst_lock]; split <;> simp [hlk]; omega
@@ -200,7 +200,7 @@ stepF StepA.s_gRelErr .gRelErr =>
 
 /-- the shared part of a step that changes nothing shared -/
 theorem StepA.of_setProc {s : St} {i : Nat} {p p' : Proc} (l : List Res)
-    (hres : p'.results = p.results ++ l) (hok : Res.ok ∈ l → p.pc = .sRel) :
+    (hres : p'.results = p.results ++ l) (hok : Res.ok ∈ l → p.pc = .sRel ∨ (p.pc = .xClose ∧ l = [.ok])) :
     StepA s (setProc s i p') i p p' := by
   refine ⟨rfl, ?_, ?_, ?_, ?_, ?_, ?_, ⟨l, hres, hok⟩⟩ <;> simp <;> exact Or.inl
 
@@ -210,6 +210,9 @@ stepF StepA.s_lCnt .lCnt =>
 stepF StepA.s_cCnt .cCnt =>
   simp only [Option.some.injEq] at hs; subst hs
   exact ⟨_, StepA.of_setProc [.bool (p.tmp == s.cnt)] (by simp) (by simp)⟩
+stepF StepA.s_xClose .xClose =>
+  simp only [Option.some.injEq] at hs; subst hs
+  exact ⟨_, StepA.of_setProc [.ok] (by simp) (by simp [hpc])⟩
 stepF StepA.s_gReadline .gReadline =>
   split at hs <;> (simp only [Option.some.injEq] at hs; subst hs)
   · exact ⟨_, StepA.of_setProc [] (by simp) (by simp)⟩
@@ -273,6 +276,7 @@ theorem StepA.of_step {scripts : List (List Op)} {s s' : St} {i : Nat} {p : Proc
   | fCntZero => exact StepA.s_fCntZero hA hp hpc hs
   | fWfZero => exact StepA.s_fWfZero hA hp hpc hs
   | fRel => exact StepA.s_fRel hA hp hpc hs
+  | xClose => exact StepA.s_xClose hA hp hpc hs
 
 theorem StepA.of_step' {scripts : List (List Op)} {s s' : St} {i : Nat} {p p'' : Proc} (hA : InvA scripts s)
     (hp : s.procs[i]? = some p) (hs : step s i = some s') (hprocs : s'.procs = s.procs.set i p'') :
@@ -290,7 +294,7 @@ theorem StepA.of_step' {scripts : List (List Op)} {s s' : St} {i : Nat} {p p'' :
 /-! ## pcs at which an operation starts -/
 
 def isEntry : Pc → Bool
-  | .idle | .oAcq | .oPathsGet | .sAcq | .gAcq | .lCnt | .cWf | .iAcq | .fAcq => true
+  | .idle | .oAcq | .oPathsGet | .sAcq | .gAcq | .lCnt | .cWf | .iAcq | .fAcq | .xClose => true
   | _ => false
 
 theorem fetch_entry (p : Proc) (h : p.pc = .idle) : isEntry (fetch p).pc = true := by
